@@ -37,15 +37,17 @@ def det(a: PolyLike) -> ndpoly:
     assert a.shape[-2] == a.shape[-1], a.shape
     dims = a.shape[-1]
     index = (slice(None),) * (a.ndim - 2)
+    if dims == 1:
+        return a[index + (0, 0)]
     if dims == 2:
         return (
             a[index + (0, 0)] * a[index + (1, 1)]
             - a[index + (1, 0)] * a[index + (0, 1)]
         )
     out = numpoly.zeros_like(a, shape=a.shape[:-2])
-    r = numpy.arange(1, dims, dtype=int)
+    columns = numpy.arange(dims, dtype=int)
     for idx in range(dims):
         idx0 = index + (0, idx)
-        idx1 = index + (slice(1, None), (r + idx) % dims)
-        out = out + a[idx0] * det(a[idx1])
+        idx1 = index + (slice(1, None), columns[columns != idx])
+        out = out + (-1) ** idx * a[idx0] * det(a[idx1])
     return out
